@@ -419,4 +419,46 @@ theorem advPairs_nodup (N i : Nat) : (advPairs N i).Nodup := by
     simp only [Prod.mk.injEq] at h1 h2
     exact hab (by omega)
 
+/-- the future pairs of `N-1-a` are the mirrored past pairs of `a` -/
+theorem advPairs_perm (N a : Nat) (ha : a < N) :
+    (advPairs N (N - 1 - a)).Perm ((retPairs a).map fun p => (N - 1 - p.2, N - 1 - p.1)) := by
+  rw [List.perm_ext_iff_of_nodup (advPairs_nodup _ _)]
+  · rintro ⟨j', k'⟩
+    rw [advPairs_mem]
+    simp only [List.mem_map, Prod.mk.injEq, Prod.exists]
+    constructor
+    · rintro ⟨h1, h2, h3⟩
+      refine ⟨N - 1 - k', N - 1 - j', (retPairs_mem a _ _).mpr ⟨by omega, by omega⟩, by omega,
+        by omega⟩
+    · rintro ⟨j, k, hm, rfl, rfl⟩
+      rw [retPairs_mem] at hm
+      omega
+  · refine (retPairs_nodup a).map_on ?_
+    rintro ⟨j, k⟩ h1 ⟨j2, k2⟩ h2 h
+    rw [retPairs_mem] at h1 h2
+    simp only [Prod.mk.injEq] at h ⊢
+    omega
+
+/-- mirrored symmetric matrices exchange the retarded and advanced clustering counters -/
+theorem retCount_mirror (N : Nat) (A A' : List (List Bool))
+    (hm : ∀ i j, i < N → j < N → Mat.at A' i j = Mat.at A (N - 1 - i) (N - 1 - j))
+    (hs : ∀ i j, i < N → j < N → Mat.at A i j = Mat.at A j i) (a : Nat) (ha : a < N) :
+    retCount A' a = advCount A N (N - 1 - a) := by
+  rw [advCount, (advPairs_perm N a ha).countP_eq, List.countP_map, retCount]
+  apply List.countP_congr
+  rintro ⟨j, k⟩ hmem
+  rw [retPairs_mem] at hmem
+  simp only [tri, Function.comp]
+  rw [hm a j ha (by omega), hm j k (by omega) (by omega), hm k a (by omega) ha,
+    hs (N - 1 - a) (N - 1 - k) (by omega) (by omega), hs (N - 1 - k) (N - 1 - j) (by omega) (by omega),
+    hs (N - 1 - j) (N - 1 - a) (by omega) (by omega)]
+  cases Mat.at A (N - 1 - a) (N - 1 - j) <;> cases Mat.at A (N - 1 - j) (N - 1 - k) <;>
+    cases Mat.at A (N - 1 - k) (N - 1 - a) <;> rfl
+
+theorem mat_adjMat (N : Nat) (log : List (Nat × Nat)) (i j : Nat) (hi : i < N) (hj : j < N) :
+    Mat.at (adjMat N log) i j = entry log i j := by
+  unfold Mat.at
+  rw [adjMat_row N log i hi]
+  simp [hj]
+
 end Pyunicorn.Visibility
